@@ -88,4 +88,29 @@ theorem simulateAll_ctx (e : Env) (fl : Flags) (c c' : Ctx) (ms : List Mutation)
       simp only [h1] at h
       exact ih c r.1 (fun m' hm' => hm m' (by simp [hm'])) h
 
+
+theorem mem_setFieldL_self (fs : List FieldSig) (f : FieldSig) : f ∈ setFieldL fs f := by
+  induction fs with
+  | nil => simp [setFieldL]
+  | cons g r ih =>
+    unfold setFieldL
+    split
+    · simp
+    · simp [ih]
+
+theorem mem_setFieldL_other {fs : List FieldSig} {f x : FieldSig} (h : x ∈ fs) (hn : x.name ≠ f.name) :
+    x ∈ setFieldL fs f := by
+  induction fs with
+  | nil => cases h
+  | cons g r ih =>
+    unfold setFieldL
+    rcases List.mem_cons.mp h with hx | hx
+    · subst hx
+      have : (x.name == f.name) = false := by simpa using hn
+      simp [this]
+    · split
+      · simp [hx]
+      · simp [ih hx]
+
+
 end DEvo.Mut
